@@ -78,6 +78,10 @@ THEOREMS = [
     "VK.C08_domsets_rep",
     "VK.C08_condoborda_rep",
     "VK.C08_toptwo_rep",
+    "VK.topMRun_mentions",
+    "VK.reRS_restrict",
+    "VK.finalistStage_re",
+    "VK.C08_toptwo_cand_order",
 ]
 RULE = ("cases = deterministic configuration of every ranking / scoring / pairwise rule (as in C10) on a random profile; "
         "five transformations of the input: rename the candidates by a random bijection into a second name pool (sort "
